@@ -25,24 +25,29 @@
    simulation (keys distinct, no Item::None, arrays of tables non-empty) and the specification side (a tree built by the
    definition rules has no empty super-table and no line-less dotted table).
 
+   C03, GENERAL CLAUSE: `C03_general_reparse` — every accepted document whose statements the specification DECIDES
+   (no step of class U1; the premise of C01_exact) prints a text that is accepted again and decodes to the same data,
+   kinds included; whatever the order of its sections, with dotted keys in key/value lines, headers and inline tables.
+
+   CONSTRUCTED DOCUMENTS.  `Built_WF`: whatever the construction API builds (Model/Build.v BuiltTbl, C06) is well-formed,
+   once floats without a repr carry their text (render_tbl, the float oracle) and provided no array of tables is empty
+   (`aot_ne`; an empty one prints nothing) — so C06's documents are instances of the backbone (C06_constructed_print_parse:
+   the decoded data is `abs_doc_of`, kinds included).
+
    NOT COVERED (stated exactly):
-     * the unconditional general clause (C03_general_reparse_undotted) needs `nodot`: no key/value line with a dotted key.
-       For documents WITH dotted-key lines what is proved is: parse_WF (all of WF but order_ok), the derivation for any
-       order of the sections (WF_print_parse_any_order), and the reparse theorem under a decidable check
-       (C03_general_reparse_replay_partial: run the definition rules on Display's statements; or
-       C03_general_reparse_partial for sections in walk order).  Missing there: the position / regrouping invariant of
-       on_keyval with a dotted path (the lines of a section are regrouped by Display; Proofs/WFSem.v `dfold` is the
-       specification half of that).
-     * class U1 ("[t.a.b]\n[t]\na.c.x=1": a dotted key through a super-table): the clause is FALSE with kinds
-       (wfb_ex_u1: the re-parsed tree has KHeader where the original has KSuper); it needs a dotted key, so it is
-       outside `nodot`.
+     * class U1 ("[t.a.b]\n[t]\na.c.x=1": a dotted key through a super-table; the specification's verdict is
+       Undecided): the clause is FALSE with kinds (wfb_ex_u1: the re-parsed tree has KHeader where the original has
+       KSuper).  For such documents what is proved is parse_WF (all of WF but order_ok), the derivation for any order
+       of the sections (WF_print_parse_any_order) and the reparse theorems under a decidable check
+       (C03_general_reparse_replay_partial, C03_general_reparse_partial) — the check fails on wfb_ex_u1, as it must.
      * `order_ok` remains the premise of the order-free SEMANTIC theorem for arbitrary (edited, built) trees
        (WF_print_parse); for them `WF_print_parse_any_order` trades it for the validity of Display's statements. *)
 From TV Require Import Base.Prelude Base.Utf8 Base.Winnow Gen.Consts Spec.Abnf Spec.Lex Spec.Defs Spec.Syntax Spec.WF.
 From TV Require Import Model.Tree Model.Parse Model.Document Model.Encode.
 From TV Require Import Proofs.GrammarBase Proofs.PrintBackBase.
 From TV Require Import Proofs.WFSem Proofs.WFSemDoc Proofs.WFBool Proofs.WFBoolSound Proofs.WFPrintValue Proofs.WFTree Proofs.WFPrintTop Proofs.WFReparse
-                       Proofs.WFParseTop Proofs.WFReparseParsed Proofs.WFReplay Proofs.WFOrderDoc Proofs.WFOrderTop.
+                       Proofs.WFParseTop Proofs.WFReparseParsed Proofs.WFReplay Proofs.WFOrderDoc Proofs.WFOrderTop Proofs.WFOrderDotDoc.
+From TV Require Import Model.Build Proofs.BuiltRTValue Proofs.BuiltRTTop Proofs.WFBuilt.
 Require Import String Ascii.
 
 (* ---- the backbone ------------------------------------------------------------------------------------------------------- *)
@@ -106,13 +111,9 @@ Theorem parse_WF_ordered : forall s d r t,
 Proof. exact parsed_WF. Qed.
 Print Assumptions parse_WF_ordered.
 
-(* C03, general clause.  FULL STATEMENT (target):
-     C03_general_reparse : parse_document s = POk d -> print_doc s d = Some o ->
-                           exists d', parse_document o = POk d' /\ abs_doc d' = abs_doc d.
-   It is FALSE as it stands for class U1 (wfb_ex_u1 below).
-   PROVED: under the decidable premise `order_data_check s d = true` (see NOT COVERED above).
-   MISSING: the generalisation of `order_ok` to Display's order; and, for documents outside class U1 whose sections
-   are in walk order, the proof that `abs_doc_of` of the parsed tree is its `abs_doc`. *)
+(* C03, general clause, under a decidable premise: the sections come in the order of the tree walk and `abs_doc_of`
+   of the despanned tree is the document's data (`order_data_check`).  Superseded for decided documents by
+   C03_general_reparse below; kept because the check also runs on documents of class U1. *)
 Theorem C03_general_reparse_partial : forall s d o,
   parse_document s = POk d -> print_doc s d = Some o -> order_data_check s d = true ->
   exists d', parse_document o = POk d' /\ abs_doc d' = abs_doc d.
@@ -162,6 +163,26 @@ Theorem C03_general_reparse_undotted : forall s d o,
 Proof. exact reparse_nodot. Qed.
 Print Assumptions C03_general_reparse_undotted.
 
+(* ---- C03, general clause: EVERY accepted document the specification decides --------------------------------------------- *)
+(* The premise is C01_exact's: no derivation of the text has a verdict Undecided, i.e. no key/value line runs a dotted
+   key through a table that exists only as a super-table (class U1, DESIGN.md 3.3; wfb_ex_u1 shows the clause is false
+   there).  Then the text the document prints — sections in Display's order, the key/value lines of each section
+   regrouped by their dotted tables — is accepted again and decodes to the same data, kinds included.
+   The semantic half (Proofs/WFOrderDot.v, WFOrderDotDoc.v): along the parse the open table is <the sub-tables it had
+   when its header was read> ++ <entries made by its lines>; the printed lines of those entries rebuild them at the
+   open section's place (WF_dotted_lines_define + C09's invariant); a decided step never descends into a super-table. *)
+Theorem C03_replay_defines_decided : forall s d,
+  parse_document s = POk d -> (forall stmts, toml_text s stmts -> verdict stmts <> Undecided) ->
+  spec_run (replay_stmts (doc_root d)) = Valid (abs_doc d).
+Proof. exact decided_replay. Qed.
+Print Assumptions C03_replay_defines_decided.
+
+Theorem C03_general_reparse : forall s d o,
+  parse_document s = POk d -> (forall stmts, toml_text s stmts -> verdict stmts <> Undecided) -> print_doc s d = Some o ->
+  exists d', parse_document o = POk d' /\ abs_doc d' = abs_doc d.
+Proof. exact reparse_decided. Qed.
+Print Assumptions C03_general_reparse.
+
 (* for any tree, parsed or not, with the facts given as premises *)
 Theorem C03_general_reparse_of_WF : forall s d r t,
   parse_document s = POk d -> tbl_despan s (doc_root d) = Some r -> raw_despan s (doc_trailing d) = Some t ->
@@ -170,6 +191,31 @@ Theorem C03_general_reparse_of_WF : forall s d r t,
   /\ exists d', parse_document (display_document r t) = POk d' /\ abs_doc d' = abs_doc d.
 Proof. exact reparse_of_wf. Qed.
 Print Assumptions C03_general_reparse_of_WF.
+
+(* ---- constructed documents are well-formed --------------------------------------------------------------------------------- *)
+(* for any admissible leaves PS / keys PK: a leaf must be within the limits and print through a default writer proved to
+   write a token (for a float: the text `ftext f` it is rendered with is a float token denoting it); keys UTF-8 *)
+Theorem Built_WF : forall (ftext : fval -> bytes) (PS : scalar -> Prop) (PK : bytes -> Prop),
+  (forall s, PS s -> scalar_lim s /\ match s with SFloat f => float_tok (ftext f) f | _ => default_ok s end) ->
+  (forall k, PK k -> utf8_valid_b k = true) ->
+  forall t, BuiltTbl PS PK t -> aot_ne t = true -> tbl_hdepth t < LIMIT -> tbl_vdepth t < LIMIT ->
+  WFdoc (render_tbl ftext t) REmpty.
+Proof. exact built_WFdoc. Qed.
+Print Assumptions Built_WF.
+
+(* C06's leaves (scalar_ok, key_ok) and float text *)
+Theorem C06_constructed_WF : forall t,
+  BuiltTbl scalar_ok key_ok t -> aot_ne t = true -> tbl_hdepth t < LIMIT -> tbl_vdepth t < LIMIT ->
+  WFdoc (render_tbl float_text t) REmpty.
+Proof. exact constructed_WF. Qed.
+Print Assumptions C06_constructed_WF.
+
+Theorem C06_constructed_print_parse : forall t,
+  BuiltTbl scalar_ok key_ok t -> aot_ne t = true -> tbl_hdepth t < LIMIT -> tbl_vdepth t < LIMIT ->
+  exists d, parse_document (display_document (render_tbl float_text t) REmpty) = POk d
+            /\ abs_doc d = abs_doc_of (render_tbl float_text t).
+Proof. exact constructed_print_parse. Qed.
+Print Assumptions C06_constructed_print_parse.
 
 (* ---- examples (closed boolean checks, by vm_compute) ------------------------------------------------------------------- *)
 Definition txt (s : string) : bytes := List.map byte_of_ascii (list_ascii_of_string s).
@@ -218,7 +264,7 @@ Proof. vm_compute. reflexivity. Qed.
 (* class U1: a dotted key through a table that exists only as a super-table.  The document is accepted, its despanned
    tree satisfies every clause of WF but order_ok, it prints as valid TOML — `[t.a]` now has a header — and the
    re-parsed tree differs from the original in the KIND of t.a only; `replay_check` is false (the statements are
-   Undecided under the strict rules) *)
+   Undecided under the strict rules, so the premise of C03_general_reparse fails: this is its boundary) *)
 Definition ex_u1 : bytes := txt ("[t.a.b]" ++ lf ++ "[t]" ++ lf ++ "a.c.x=1" ++ lf).
 Definition ex_u1_tree (kd : kind) : stree dval :=
   [(txt "t", NTab KHeader [(txt "a", NTab kd [(txt "b", NTab KHeader []); (txt "c", NTab KDotted [(txt "x", NVal (DInt 1))])])])].
@@ -268,4 +314,18 @@ Definition ex_abc_check : bool :=
   | _ => false
   end.
 Example wfb_ex_unordered : ex_abc_check = true.
+Proof. vm_compute. reflexivity. Qed.
+
+(* a constructed document: a float without a repr (rendered with its text), a table marked implicit (set_implicit(true),
+   what toml's DocumentFormatter does) that still prints a header below itself: Built_WF applies, the decision procedure
+   agrees, and Display prints what is expected *)
+Definition ex_built : tbl :=
+  let sc (x : scalar) := IValue (VScalar x None decor_default) in
+  let tb (im : bool) (l : list (bytes * item)) := ITable (Tbl (mk_tbl_items l) decor_default im false None None) in
+  Tbl (mk_tbl_items [(txt "a", sc (SFloat (FDec false 15 (-1)%Z))); (txt "t", tb true [(txt "u", tb false [(txt "x", sc (SInt 1%Z))])])])
+      decor_default false false None None.
+Definition ex_built_check : bool :=
+  aot_ne ex_built && wfdoc_b (render_tbl float_text ex_built) REmpty
+  && bytes_eqb (display_document (render_tbl float_text ex_built) REmpty) (txt ("a = 1.5" ++ lf ++ lf ++ "[t.u]" ++ lf ++ "x = 1" ++ lf)).
+Example wfb_ex_built : ex_built_check = true.
 Proof. vm_compute. reflexivity. Qed.
